@@ -2,7 +2,7 @@ SPECIFICATION MCSpec
 CONSTANTS
   Groups = {"g1","g2"}
   Names = {"s1","s2"}
-  Dev = {"MemRollbackStealsNostrId","MemOffsetOverflows"}
+  Dev = {}
   KnownFinding <- Silent
   Cap = 0
   MaxLimit = 10000
